@@ -889,9 +889,18 @@ func syncResync(run *harness.Run, d *Driver, key string, idx int) {
 	// an mtime beyond those of the later units.  mtime is a value the committing host sends; the
 	// double's stored copy is edited while the tool is stopped.
 	s.cl.WaitIdle(20*time.Millisecond, 5*time.Second)
-	skewed := s.skewLatestMtime(s.units[r.Intn(n1-1)].End, 10*time.Second)
+	// ... or every unit was (the whole era was committed by a host whose clock runs ahead of the
+	// host that starts next, by seconds or by an hour): the record of the last committed unit
+	// then lies in the starting host's future
+	skewBy := []time.Duration{10 * time.Second, 2 * time.Minute, time.Hour}[r.Intn(3)]
+	upTo := s.units[r.Intn(n1-1)].End
+	which := "the first units"
+	if r.Intn(2) == 0 {
+		upTo, which = s.units[n1-1].End, "all units"
+	}
+	skewed := s.skewLatestMtime(upTo, skewBy)
 	run.Count("cluster_latest_records_with_skewed_mtime", int64(skewed))
-	s.desc += fmt.Sprintf("; the latest records of the first units of era 1 (%d records) carry mtimes 10 s ahead of the later ones", skewed)
+	s.desc += fmt.Sprintf("; the latest records of %s of era 1 (%d records) carry mtimes %v ahead", which, skewed, skewBy)
 	// the same instance is told to resynchronise: StartPoint, snapshot, StartPoint, stream
 	sp, err := out.StartPoint(ctx, ids)
 	s.judgeStart(sp, err, "StartPoint on the same output after era 1", "in-process-restart|", base1)
